@@ -846,7 +846,6 @@ func main() {
 	worker := flag.String("worker", "", "internal: schedule worker k:n:bound:budgetSeconds")
 	free := flag.Int("freerun", 0, "internal: free-running iterations per scenario (race binary)")
 	raceBin := flag.String("racebin", "", "path of the -race build of this harness")
-	t0 := time.Now()
 	r = vk.New("exploration")
 	if *free > 0 {
 		freeRun(*free, r.Thorough())
@@ -865,7 +864,14 @@ func main() {
 		pprof.StartCPUProfile(f)
 		defer pprof.StopCPUProfile()
 	}
-	r.SetBudget(80*time.Second, 15*time.Minute)
+	r.SetBudget(80*time.Second, 25*time.Minute)
+
+	// Phase A: schedule enumeration (worker subprocesses: one exploration per process) + free-running -race pass.
+	// It runs first so that its (bounded) cost is never squeezed out by the sequential enumeration's budget.
+	schedCov := schedulePhase(r, *raceBin, r.Budget*4/10)
+	tSeq := time.Now()
+
+	// Phase B: sequential enumeration
 
 	partSizes := []int{1, 2, 3, 16}
 	maxParts := 5
@@ -946,11 +952,7 @@ func main() {
 		r.Violation("good part rejected by a scratch set built from the header", map[string]any{"times": n})
 	}
 	pprof.StopCPUProfile()
-
-	// schedule enumeration (worker subprocesses: one exploration per process) + free-running -race pass
-	seqWall := time.Since(t0).Seconds()
-	schedCov := schedulePhase(r, *raceBin, r.Budget-time.Since(t0))
-	schedCov["phase_wall_s"].(map[string]float64)["sequential"] = seqWall
+	schedCov["phase_wall_s"].(map[string]float64)["sequential"] = time.Since(tSeq).Seconds()
 
 	r.Assumptions = []string{
 		"schedule phase: scheduling points are the mutex operations of part_set.go (import-rewritten shim); code between them is atomic, which is sound for data-race-free code - races are looked for by the separate free-running -race pass; small scope: <=3 threads, <=2 operations each, <=3 parts, <=2 preemptions (thorough: 3)",
